@@ -95,3 +95,10 @@ claim("C13", "property-based testing: libsbml-built documents, differential vs r
       "values, stoichiometry, rule count, post-rule state and derivative at sampled states must equal the reference "
       "semantics to 1e-9.  Left-nested powers in kinetic laws are a recorded known finding probed by its own labelled "
       "class.", _TB + "; libsbml's writer and reader", "DESIGN.md section 4 C13")
+
+claim("C12", "property-based testing: SBML write/read round trip with a behavioural model comparator (Hypothesis)",
+      "5k / 40k generated models (all propensity types, orders 0..4, three delay families, additive / assignment rules "
+      "with every frequency, general rates incl. t, volume, Heaviside, log) x both export flavours: double export must be "
+      "textually identical up to the model id; the re-imported model must match the original in species, parameters, "
+      "stoichiometry, all four rate forms at sampled states, seeded delay draws, and rule effects.",
+      _TB + "; the guarded probes for the stochastic rate forms", "DESIGN.md section 4 C12, section 3.5")
